@@ -5,8 +5,8 @@
   kinds of events: ImportWallet (`importStart`: keystore bucket + cache entry + status "importing from 0" + address
   records in ONE Update, then the task is queued), one batch of the worker's rescan (`importStep`, the `Op` of
   Deepen3Task on C07's `importStep`), RemoveWallet (`removeMark`: the flag, then the task is queued), one iteration
-  of the worker's removal (`removeStep`, C08's `removeStep` as an `Op`), and `drain`: the worker runs its queued
-  task to the end.  The worker only ever runs a task that is IN THE QUEUE (`PVol.tasks`): after a crash it is
+  of the worker's removal (`removeStep`, C08's `removeStep` as an `Op`), and `importDrain` / `removeDrain`: the worker
+  runs its queued task to the end.  The worker only ever runs a task that is IN THE QUEUE (`PVol.tasks`): after a crash it is
   `initTaskChan` (`requeue`, run by `Model.Persist.crash`) that puts it there again.  (It also looks at the stored
   status: a queued task for a wallet that is ready / gone is skipped — the code queues tasks for unfinished wallets
   only, `OnImportWallet` under `!ws.Ready()`, `initTaskChan` from the stored status.)
@@ -65,7 +65,8 @@ inductive EvT
   | importStep (w : Wid)
   | removeMark (w : Wid)
   | removeStep (w : Wid)
-  | drain (w : Wid) (fuel : Nat)
+  | importDrain (w : Wid) (fuel : Nat)   -- the worker runs the queued rescan to its end
+  | removeDrain (w : Wid) (fuel : Nat)   -- the worker runs the queued removal to its end
   deriving Inhabited
 
 /-- the worker is done with a task: it leaves the queue -/
@@ -89,12 +90,14 @@ def stepT (cfg : Cfg) (crashing : Bool) (x : SysQ) : EvT → SysQ
       let res := (opRemoveStep cfg.limit cfg.n (envAt cfg.st x.chain) w (addrsOf x.V.keys w)).run none x.P x.V
       { x with P := res.P, V := if res.ok && removeDone res.P w then dropTask res.V (.rem w) else res.V }
     else x
-  | .drain w fuel =>
+  | .importDrain w fuel =>
     if x.V.tasks.contains (.imp w) && !importDone x.P w then
       match importLoop cfg.batch cfg.n (envAt cfg.st x.chain) w fuel x.P x.V with
       | some (P', V') => { x with P := P', V := dropTask V' (.imp w) }
       | none => x
-    else if x.V.tasks.contains (.rem w) && !removeDone x.P w then
+    else x
+  | .removeDrain w fuel =>
+    if x.V.tasks.contains (.rem w) && !removeDone x.P w then
       match removeLoop cfg.limit cfg.n (envAt cfg.st x.chain) w (addrsOf x.V.keys w) fuel x.P x.V with
       | some (P', V') => { x with P := P', V := dropTask V' (.rem w) }
       | none => x
@@ -135,10 +138,8 @@ def skStepT (cfg : Cfg) (k : SkelT) : EvT → SkelT
   | .importStep _ => k
   | .removeMark w => { k with busy := some (.rem w) }
   | .removeStep _ => k
-  | .drain _ _ =>
-    match k.busy with
-    | some (.rem w) => { k with base := { k.base with ks := AMap.erase k.base.ks w }, busy := none }
-    | _ => { k with busy := none }
+  | .importDrain _ _ => { k with busy := none }
+  | .removeDrain w _ => { k with base := { k.base with ks := AMap.erase k.base.ks w }, busy := none }
 
 def skRunT (cfg : Cfg) (k : SkelT) (evs : List EvT) : SkelT := evs.foldl (skStepT cfg) k
 
@@ -186,8 +187,8 @@ def StepOKT (cfg : Cfg) (G : Block) (k : SkelT) : EvT → Prop
   | .importStep w => k.busy = some (.imp w)
   | .removeMark w => k.busy = none ∧ (AMap.get k.base.ks w).isSome ∧ ∃ w', w' ≠ w ∧ w' ∈ walletsOf k.base.ks
   | .removeStep w => k.busy = some (.rem w)
-  | .drain w fuel =>
-    (k.busy = some (.imp w) ∧ k.queue = [] ∧ k.base.chain.length + 1 ≤ fuel) ∨ (k.busy = some (.rem w) ∧ k.queue = [])
+  | .importDrain w fuel => k.busy = some (.imp w) ∧ k.queue = [] ∧ k.base.chain.length + 1 ≤ fuel
+  | .removeDrain w _ => k.busy = some (.rem w)
 
 def RunOKT (cfg : Cfg) (G : Block) : SkelT → List EvT → Prop
   | _, [] => True
